@@ -5,7 +5,9 @@ import RactorModel.Lemmas.AdmissionLate
 import RactorModel.Lemmas.AdmissionIds
 import RactorModel.Lemmas.AdmissionQueue
 import RactorModel.Lemmas.AdmissionOracle
+import RactorModel.Lemmas.AdmissionBack
 import RactorModel.Lemmas.AdmissionShut
+import RactorModel.Lemmas.AdmissionProgress
 import RactorModel.Lemmas.Early
 import RactorModel.Lemmas.EarlyStep
 import RactorModel.Lemmas.StopPortsRun
@@ -27,16 +29,18 @@ when the drainer's `fetch_or(CLOSED)` has already happened (`late`, recorded by 
 see `first_step_records_closed`) returns `Err(SendErr(m))`, and `m` is never enqueued. -/
 theorem send_after_close_rejected (progs : List (List Op)) (sched : List Tid) :
     ∀ r ∈ (run (init progs) sched).sh.rets, r.kind = .send → r.late = true →
-      r.res = .sendErr ∧ (run (init progs) sched).sh.enq.count (.msg r.id) = 0 := by
+      r.res = .sendErr r.id ∧ (run (init progs) sched).sh.enq.count (.msg r.id) = 0 := by
   intro r hr hk hl
   have hL := (lateInv_run _ sched (lateInv_init progs)).late_log
   have hI := idInv_run r.id _ sched (idInv_init r.id progs)
   have hnb : Ret.lateBad r = false := by
     have := List.countP_eq_zero.mp hL r hr
     simpa using this
-  have hres : r.res = .sendErr := by
-    cases hres : r.res <;> simp [Ret.lateBad, hk, hl, hres] at hnb
-    rfl
+  have hB := (backInv_run _ sched (backInv_init progs)).own r hr hk
+  have hres : r.res = .sendErr r.id := by
+    cases hres : r.res with
+    | sendErr b => rw [hB b hres]
+    | _ => simp [Ret.lateBad, hk, hl, hres] at hnb
   refine ⟨hres, ?_⟩
   have hpos : 0 < (run (init progs) sched).sh.rets.countP (Ret.errFor r.id) :=
     List.countP_pos_iff.mpr ⟨r, hr, by simp [Ret.errFor, hk, hres]⟩
@@ -53,13 +57,17 @@ theorem send_started_after_close_is_rejected (progs : List (List Op)) (sched₁ 
     (hnot : (run (init progs) sched₁).sh.nextId ≤ m ∨
       ∃ stack ∈ (run (init progs) sched₁).threads, ∃ f ∈ stack, f.pc = .sStatus ∧ f.id = m) :
     (run (run (init progs) sched₁) sched₂).sh.enq.count (.msg m) = 0 ∧
-    ∀ r ∈ (run (run (init progs) sched₁) sched₂).sh.rets, r.kind = .send → r.id = m → r.res = .sendErr := by
+    ∀ r ∈ (run (run (init progs) sched₁) sched₂).sh.rets, r.kind = .send → r.id = m → r.res = .sendErr m := by
   have hI := idInv_run m _ sched₁ (idInv_init m progs)
   have hS := shutInv_run m _ sched₂ (shutInv_of_closed m _ hI hc hnot)
   refine ⟨hS.not_enq, fun r hr hk hid => ?_⟩
   have := List.countP_eq_zero.mp hS.rets_ok r hr
   simp only [Ret.notHandedBack, hid, beq_self_eq_true, hk, Bool.true_and, Bool.not_eq_true] at this
-  cases hres : r.res <;> simp_all
+  have hB := (backInv_run _ (sched₁ ++ sched₂) (backInv_init progs)).own r
+    (by simpa only [run, List.foldl_append] using hr) hk
+  cases hres : r.res with
+  | sendErr b => rw [hB b hres, hid]
+  | _ => simp_all
 
 /-- What `late` records: the first step of a send reads `closed` into the ghost flag (together with the ids of the sends that have already returned `Ok`; the
 send either returns `SendErr` at once because of the status, or goes on to `admit.load`). -/
@@ -67,7 +75,7 @@ theorem first_step_records_closed (s : Shared) (id : Nat) (late bf : Bool) (ops 
     (sk : List Nat) (rest : List Frame) :
     stepThread s (⟨.sStatus, id, late, ops, bf, sk⟩ :: rest) =
       if s.status ≥ stDraining then
-        some ({ s with rets := s.rets ++ [⟨.send, id, .sendErr, s.word.closed, okIds s.rets⟩] }, rest)
+        some ({ s with rets := s.rets ++ [⟨.send, id, .sendErr id, s.word.closed, okIds s.rets⟩] }, rest)
       else some (s, ⟨.aLoad, id, s.word.closed, ops, bf, okIds s.rets⟩ :: rest) := by
   simp only [stepThread, finish, kindOf]
 
@@ -332,7 +340,7 @@ theorem drained_actor_handled_exactly_the_accepted (progs : List (List Op)) (sch
     (he : endState (run (init progs) sched) = true)
     (hso : (run (init progs) sched).sh.stoppedByOther = false) :
     (∀ i, (run (init progs) sched).sh.handled.count i ≤ 1) ∧
-    (∀ r ∈ (run (init progs) sched).sh.rets, r.kind = .send → r.late = true → r.res = .sendErr) ∧
+    (∀ r ∈ (run (init progs) sched).sh.rets, r.kind = .send → r.late = true → r.res = .sendErr r.id) ∧
     (∀ r ∈ (run (init progs) sched).sh.rets, r.kind = .send → r.res = .ok →
       r.id ∈ (run (init progs) sched).sh.handled) := by
   refine ⟨?_, ?_, ?_⟩
@@ -383,7 +391,7 @@ def exampleProgs : List (List Op) := [[.send [] false], [.drain], [.send [] fals
 
 example : (run (init exampleProgs) exampleSched).sh.enq = [.msg 0, .drain] := by decide
 example : (run (init exampleProgs) exampleSched).sh.rets =
-    [⟨.drain, 0, .ok, false, []⟩, ⟨.send, 1, .sendErr, true, []⟩, ⟨.send, 0, .ok, false, []⟩] := by decide
+    [⟨.drain, 0, .ok, false, []⟩, ⟨.send, 1, .sendErr 1, true, []⟩, ⟨.send, 0, .ok, false, []⟩] := by decide
 example : (run (init exampleProgs) exampleSched).sh.word = ⟨true, true, 0⟩ ∧
     quiescent (run (init exampleProgs) exampleSched) = true := by decide
 /-- the re-entrant shape of `drain_defers_marker_for_reentrant_admitted_send`: the drain runs
@@ -401,7 +409,7 @@ example : endState (run (init exampleProgs) (exampleSched ++ [.recv, .recv, .rec
 (thread 1, two steps) thread 2's send is parked at `send.status` with id 0 … and is rejected -/
 example : (run (init exampleProgs) [.t 1, .t 1, .t 2]).sh.word.closed = true
     ∧ (∃ stack ∈ (run (init exampleProgs) [.t 1, .t 1, .t 2]).threads, ∃ f ∈ stack, f.pc = .sStatus ∧ f.id = 0)
-    ∧ (run (init exampleProgs) [.t 1, .t 1, .t 2, .t 2, .t 2]).sh.rets = [⟨.send, 0, .sendErr, true, []⟩] := by
+    ∧ (run (init exampleProgs) [.t 1, .t 1, .t 2, .t 2, .t 2]).sh.rets = [⟨.send, 0, .sendErr 0, true, []⟩] := by
   refine ⟨by decide, ⟨_, List.mem_of_getElem? (i := 2) rfl, _, List.mem_cons_self, rfl, rfl⟩, by decide⟩
 
 
@@ -693,7 +701,7 @@ theorem model_admit_load_follows_generated (enq : Except MessagingErr Unit) (s :
     (rest : List Frame) (hpc : f.pc = .aLoad) (h : s.word.count + 1 < 2 ^ 62) :
     stepThread s (f :: rest) =
       match ActorProperties.try_admit_message enq (st s.word) with
-      | .done _ => some (finish s f .sendErr rest)
+      | .done _ => some (finish s f (.sendErr f.id) rest)
       | .cas _ _ _ => some (s, { f with pc := .aCas s.word } :: rest) := by
   rw [generated_try_admit_eq_model enq s.word h]
   unfold stepThread
@@ -857,6 +865,288 @@ example :
 
 end ports
 
+/-! ### Round 4, wave 2: a rejected send hands back exactly its own message
+
+`Res.sendErr b` carries the id `b` of the message inside `Err(MessagingErr::SendErr(m))`. Every
+rejection path of `send_message_unchecked` (status gate, closed admission at `admit.load` /
+`admit.cas`, closed channel at `send.enqueue` — the latter returning through the ticket drop and
+possibly through the marker program) moves the caller's own message into the error. The driver
+compares the id the real code hands back with the model's and evaluates the oracle clause
+`handed-back-other-message` (`Ret.backBad`) on the implementation's records. -/
+section handedBack
+open Admission
+
+/-- (2) **A rejected send hands back exactly its own message**: whenever a send returns
+`Err(SendErr(m'))`, `m'` is the message that was passed to that send — for all programs and all
+schedules (invariant `BackInv`, `Lemmas/AdmissionBack.lean`). -/
+theorem rejected_send_hands_back_its_own_message (progs : List (List Op)) (sched : List Tid) :
+    ∀ r ∈ (run (init progs) sched).sh.rets, r.kind = .send → ∀ b, r.res = .sendErr b → b = r.id :=
+  (backInv_run _ sched (backInv_init progs)).own
+
+/-- non-vacuity: in the example the send of message 1 (thread 2, started after the close) returns
+`sendErr` carrying id 1, while message 0 is accepted -/
+example : ⟨.send, 1, .sendErr 1, true, []⟩ ∈ (run (init exampleProgs) exampleSched).sh.rets := by decide
+/-- non-vacuity, the late path: a send that holds a ticket and finds the channel closed at
+`send.enqueue` returns its own message through `ticket.release` -/
+example : (run (init [[.send [] false], [.send [] false]])
+    [.t 0, .t 0, .t 1, .t 1, .t 1, .t 1, .t 1, .t 1, .rxStop, .rxClose, .t 1, .t 1]).sh.rets
+      = [⟨.send, 1, .sendErr 1, false, []⟩] := by decide
+/-- the oracle clause is not vacuous: an observation whose send hands back another id violates it -/
+example : (Obs.mk [⟨.send, 3, .sendErr 4, false, []⟩] [] ⟨false, false, 0⟩ 0 false true).violations
+    = ["handed-back-other-message"] := by decide
+
+end handedBack
+
+/-! ### Progress of the fine-grained model (round 4, wave 2): ranking measure, CAS loops, fair schedules
+
+`Lemmas/AdmissionProgress.lean`. `phi g` = remaining work of all workers (every frame: its program
+counter + the ops it still has to start, an enqueue counting 3) + remaining work of the receiver
+(`rho`: two steps per queued item, one for a taken message, close + flush). `stale g` = number of
+workers parked at a CAS whose remembered word is not the current word. `mu g = (T+1)·phi g + stale g`
+(`T` threads) is the lexicographic order (`phi`, `stale`) packed into one natural number. -/
+
+/-- **Ranking, one atomic worker step.** Every atomic step of a worker — `send.status`, both loads,
+both CAS, `send.box`, nested op starts, `send.enqueue`, `ticket.release`, `drain.close`, `drain.status`,
+`marker.enqueue`, … — either strictly decreases `phi`, or it is a FAILED, RETRYING CAS (`admit.cas`
+with the word changed but not closed, `marker.cas` with the word changed but the marker still due):
+then the whole shared state and the thread's work are unchanged, the remembered word differed from the
+current word before the step and equals it afterwards. -/
+theorem step_is_progress_or_a_failed_cas (g : G) (i : Nat) (stack stack' : List Frame) (s' : Shared)
+    (hi : g.threads[i]? = some stack) (hs : stepThread g.sh stack = some (s', stack')) :
+    phi (step g (.t i)) < phi g ∨
+    ((step g (.t i)).sh = g.sh ∧ phi (step g (.t i)) = phi g ∧
+      staleTop g.sh.word stack = 1 ∧ staleTop g.sh.word stack' = 0) := by
+  rw [step_t hi hs]
+  have hW := sum_map_set stackW g.threads i stack' stack hi
+  rcases thread_rank hs with h | ⟨rfl, hw, h1, h0⟩
+  · left; simp only [phi, totalW]; omega
+  · right; refine ⟨rfl, ?_, h1, h0⟩; simp only [phi, totalW]; omega
+
+/-- **A CAS fails only because another thread made progress**, part 1: right after ANY step of its
+own (in particular the load in front of a CAS, and a failed CAS itself) a thread remembers the current
+word — it is not parked at a CAS that is bound to fail. -/
+theorem after_its_own_step_a_thread_remembers_the_current_word (progs : List (List Op)) (sched : List Tid)
+    (i : Nat) (stack stack' : List Frame) (s' : Shared)
+    (hi : (run (init progs) sched).threads[i]? = some stack)
+    (hs : stepThread (run (init progs) sched).sh stack = some (s', stack')) :
+    staleTop s'.word stack' = 0 :=
+  own_step_fresh hs (tailOk_run _ sched (tailOk_init progs) stack (List.mem_of_getElem? hi))
+
+/-- … part 2: whenever the admission word differs after a stretch of schedule, that stretch contains
+a step of a worker thread that strictly decreased `phi` (only `admit.cas`/`ticket.release`/
+`drain.close`/`marker.cas` successes write the word). So between a thread's load and its failing CAS
+(the thread itself not scheduled in between) some OTHER thread made progress: retries are paid for. -/
+theorem the_word_changes_only_by_progress (g : G) (sched : List Tid)
+    (h : (run g sched).sh.word ≠ g.sh.word) :
+    ∃ a i b, sched = a ++ .t i :: b ∧ phi (step (run g a) (.t i)) < phi (run g a) := by
+  induction sched generalizing g with
+  | nil => exact absurd rfl h
+  | cons u l ih =>
+    by_cases hw : (step g u).sh.word = g.sh.word
+    · have : (run (step g u) l).sh.word ≠ (step g u).sh.word := by rw [hw]; exact h
+      obtain ⟨a, i, b, e, hp⟩ := ih (step g u) this
+      exact ⟨u :: a, i, b, by rw [e]; rfl, hp⟩
+    · obtain ⟨i, rfl, hp⟩ := word_change_is_progress g u hw
+      exact ⟨[], i, l, rfl, hp⟩
+
+/-- **Ranking, whole system.** No step of anybody (workers, receiver, stop/kill, status writers)
+increases the well-founded measure `mu`, and every step of somebody who has something to do — a worker
+whose program is not finished (INCLUDING a failed CAS), `recv` with a message to take or to handle,
+`rxClose`/`rxFlush` with a channel to close / to empty — strictly decreases it. -/
+theorem every_step_that_does_something_decreases_the_measure (g : G) (u : Tid) :
+    mu (step g u) ≤ mu g ∧ (en g u = true → mu (step g u) < mu g) :=
+  ⟨mu_step_le g u, mu_step_lt g u⟩
+
+/-- **Progress: every weakly fair schedule finishes.** From every reachable state `g`, every
+continuation made of `N ≥ mu g` *fair rounds* — a round schedules every worker thread that was not finished in `g` and each of
+the receiver's actions (`recv`, `rxClose`, `rxFlush`) at least once, in any order, any number of
+times, interleaved with any `setStatus`; no stop / kill from outside — reaches `endState`: every
+program has returned (all CAS loops have terminated), the channel is empty, nothing is taken, and
+the receiver, if it left its loop, has closed the channel. `N = mu g` is computed from the state. -/
+theorem fair_schedule_reaches_the_end_state (progs : List (List Op)) (sched₁ : List Tid)
+    (rounds : List (List Tid))
+    (hfair : ∀ r ∈ rounds, fairRound (run (init progs) sched₁) r)
+    (hn : mu (run (init progs) sched₁) ≤ rounds.length) :
+    endState (run (init progs) (sched₁ ++ rounds.flatten)) = true :=
+  fair_reaches_endState progs sched₁ rounds hfair hn
+
+/-- **A drain completes under every weakly fair schedule** (C07 "never leaves the actor running
+forever", liveness form for the fine-grained model: ticket holders inside `box_message`, CAS retry
+loops, any number of senders and drainers). If admission is closed in a reachable state and no stop /
+kill has happened or happens, then after `mu g` fair rounds: all ops have returned, the marker bit is
+set and no ticket is outstanding, the marker was enqueued and dequeued, the receiver left its loop with
+reason "Drained" exactly once and closed the channel, nothing was flushed, and the handled messages
+are exactly the enqueued ones = exactly the ids of the sends that RETURNED `Ok`. -/
+theorem drain_completes_under_every_fair_schedule (progs : List (List Op)) (sched₁ : List Tid)
+    (rounds : List (List Tid))
+    (hc : (run (init progs) sched₁).sh.word.closed = true)
+    (hso : (run (init progs) sched₁).sh.stoppedByOther = false)
+    (hfair : ∀ r ∈ rounds, fairRound (run (init progs) sched₁) r)
+    (hn : mu (run (init progs) sched₁) ≤ rounds.length) :
+    let f := run (init progs) (sched₁ ++ rounds.flatten)
+    endState f = true ∧ f.sh.word.marker = true ∧ f.sh.word.count = 0 ∧
+    f.sh.drainedExits = 1 ∧ f.sh.rxOpen = false ∧ f.sh.stoppedByOther = false ∧
+    Item.drain ∈ f.sh.deqd ∧ f.sh.flushed = [] ∧ f.sh.handled = msgIds f.sh.enq ∧
+    (∀ i, i ∈ f.sh.handled ↔ ∃ r ∈ f.sh.rets, r.kind = .send ∧ r.res = .ok ∧ r.id = i) := by
+  intro f
+  have he : endState f = true := fair_schedule_reaches_the_end_state progs sched₁ rounds hfair hn
+  have e : f = run (run (init progs) sched₁) rounds.flatten := run_append _ _ _
+  have hc' : f.sh.word.closed = true := by rw [e]; exact (mono_run _ _).closed hc
+  have hso' : f.sh.stoppedByOther = false := by
+    rw [e, sbo_fair _ _ rounds hfair]
+    exact hso
+  obtain ⟨hm, hcnt, hd, ho⟩ := drain_ends_the_actor_exactly_once progs _ he hc' hso'
+  have Q := qinv_run _ (sched₁ ++ rounds.flatten) (qinv_init progs)
+  have hmem : Item.drain ∈ f.sh.deqd := by
+    apply List.count_pos_iff.mp
+    have := Q.drained_eq
+    simp only [f] at hd ⊢
+    omega
+  obtain ⟨hh, -, hf⟩ := drained_exit_handled_everything progs _ hmem
+  exact ⟨he, hm, hcnt, hd, ho, hso', hmem, hf, hh,
+    every_ok_send_is_handled_at_the_end progs _ he hso'⟩
+
+/-- Non-vacuity: a sender parked at `ticket.release` (its message is in the channel) and a drainer
+parked at `drain.status` (admission closed, one ticket outstanding): `mu = 48`; 48 rounds
+`[recv, t1, rxFlush, t0, rxClose]` are fair, and the theorem's conclusion is what the model computes. -/
+example :
+    let progs : List (List Op) := [[.send [] false], [.drain]]
+    let sched₁ : List Tid := [.t 0, .t 0, .t 0, .t 0, .t 0, .t 0, .t 0, .t 1, .t 1]
+    let round : List Tid := [.recv, .t 1, .rxFlush, .t 0, .rxClose]
+    (run (init progs) sched₁).sh.word.closed = true ∧
+    (run (init progs) sched₁).sh.word.count = 1 ∧
+    mu (run (init progs) sched₁) = 48 ∧
+    endState (run (init progs) (sched₁ ++ (List.replicate 48 round).flatten)) = true ∧
+    (run (init progs) (sched₁ ++ (List.replicate 48 round).flatten)).sh.drainedExits = 1 ∧
+    (run (init progs) (sched₁ ++ (List.replicate 48 round).flatten)).sh.handled = [0] := by
+  decide +kernel
+
+example : fairRound (run (init [[.send [] false], [.drain]])
+    [.t 0, .t 0, .t 0, .t 0, .t 0, .t 0, .t 0, .t 1, .t 1]) [.recv, .t 1, .rxFlush, .t 0, .rxClose] := by
+  refine ⟨by decide, fun t ht => ?_⟩
+  cases t with
+  | t i =>
+    have hi : i < 2 := by
+      apply Classical.byContradiction
+      intro hge
+      have : ¬ i < 2 := hge
+      simp only [mustRun, en] at ht
+      have hnone : (run (init [[Op.send [] false], [Op.drain]])
+        [.t 0, .t 0, .t 0, .t 0, .t 0, .t 0, .t 0, .t 1, .t 1]).threads[i]? = none := by
+        apply List.getElem?_eq_none
+        rw [length_run]; simp [init]; omega
+      rw [hnone] at ht; cases ht
+    have : i = 0 ∨ i = 1 := by omega
+    rcases this with rfl | rfl <;> simp
+  | recv => simp
+  | rxClose => simp
+  | rxFlush => simp
+  | rxStop => exact absurd ht (by simp [mustRun])
+  | setStatus st => exact absurd ht (by simp [mustRun])
+
+/-- (6, schedule form) **A repeated drain is invisible under ANY interleaving.** Let some drain have
+completed in `g` (marker bit set, closed, status ≥ Draining). Run ANY schedule from `g` — other
+senders, other drainers, the receiver, stop/kill, the repeated drain's own earlier steps, in any
+order — and then let thread `i`, whose top frame is a step of a (further) `drain()`, move: the shared
+state is untouched except for the log of returned ops, and the drain's last step logs `Ok`.
+(`repeated_drain_step_changes_nothing` + `completed_drain_is_stable` composed along the schedule; the
+case of drains racing BEFORE the first one completed is `marker_at_most_once` and, for the outcome,
+`drain_completes_under_every_fair_schedule`: any number of drainers, one "Drained" exit.) -/
+theorem repeated_drain_is_invisible_under_any_interleaving (g : G) (sched : List Tid) (i : Nat)
+    (hm : g.sh.word.marker = true) (hc : g.sh.word.closed = true) (hst : stDraining ≤ g.sh.status)
+    (f : Frame) (rest : List Frame)
+    (hi : (run g sched).threads[i]? = some (f :: rest))
+    (hpc : f.pc = .dClose ∨ f.pc = .dStatus ∨ f.pc = .mLoad none) :
+    (step (run g sched) (.t i)).sh =
+      { (run g sched).sh with rets := (step (run g sched) (.t i)).sh.rets } ∧
+    (f.pc = .mLoad none → (step (run g sched) (.t i)).sh.rets =
+      (run g sched).sh.rets ++ [⟨.drain, f.id, .ok, f.late, f.seenOk⟩] ∧
+      (step (run g sched) (.t i)).threads[i]? = some rest) ∧
+    (f.pc ≠ .mLoad none → (step (run g sched) (.t i)).sh.rets = (run g sched).sh.rets) := by
+  obtain ⟨hm', hc', hst'⟩ := completed_drain_is_stable g sched hm hc hst
+  obtain ⟨s', st', hs, h1, h2, h3⟩ := repeated_drain_step_changes_nothing _ f rest hm' hc' hst' hpc
+  rw [step_t hi hs]
+  refine ⟨h1, fun hp => ⟨(h2 hp).1, ?_⟩, h3⟩
+  rw [get_set_self s' hi, (h2 hp).2]
+
+/-- **No livelock under ANY schedule** (lock-freedom of the protocol, no fairness needed): along every
+schedule whatsoever — including `rxStop`, unfair ones, ones that starve threads — the number of steps
+that do something (worker steps of unfinished programs, FAILED CAS ATTEMPTS INCLUDED, and effective
+receiver steps) is at most `mu g`. In particular the two CAS loops cannot spin forever. -/
+theorem no_livelock_under_any_schedule (g : G) (sched : List Tid) :
+    effSteps g sched + mu (run g sched) ≤ mu g :=
+  effSteps_le g sched
+
+/-- **Every op returns under plain count-fairness** (the form "each unfinished thread is scheduled at
+least `N` more times", `N = mu g` computed from the state): after any prefix `sched₁`, let `sched₂` be
+ANY schedule — receiver steps, stop, kill, status writes, other threads, in any order — in which every
+worker whose program is unfinished occurs at least `mu g` times. Then after `sched₂` no send, drain or
+wrong-type send is in flight: every call has returned, all CAS loops have terminated. (For the receiver
+this form of fairness is not enough — `recv^N` before the senders leaves the queue full — hence the
+rounds of `fair_schedule_reaches_the_end_state`.) -/
+theorem every_op_returns_when_its_thread_is_scheduled_often_enough (progs : List (List Op))
+    (sched₁ sched₂ : List Tid)
+    (h : ∀ i, en (run (init progs) sched₁) (.t i) = true → mu (run (init progs) sched₁) ≤ sched₂.count (.t i)) :
+    quiescent (run (init progs) (sched₁ ++ sched₂)) = true := by
+  have K := stackOk_run _ (sched₁ ++ sched₂) (stackOk_init progs)
+  rw [run_append] at K ⊢
+  exact quiescent_of_workers_done K (workers_done _ sched₂ h)
+
+/-- **A drain never leaves the actor running forever — liveness under count-fairness of the workers
+only.** If admission is closed in a reachable state and every unfinished worker is scheduled `mu g`
+more times (the receiver, stop and kill arbitrary), then the marker bit is set, and — unless the
+receiver has already closed the channel — the marker is in the channel or was already dequeued (and the
+receiver has left its loop). This discharges the quiescence hypothesis of `drain_completes`. -/
+theorem marker_is_emitted_when_threads_are_scheduled_often_enough (progs : List (List Op))
+    (sched₁ sched₂ : List Tid)
+    (hc : (run (init progs) sched₁).sh.word.closed = true)
+    (h : ∀ i, en (run (init progs) sched₁) (.t i) = true → mu (run (init progs) sched₁) ≤ sched₂.count (.t i)) :
+    let f := run (init progs) (sched₁ ++ sched₂)
+    f.sh.word.marker = true ∧
+    (f.sh.rxOpen = true → f.sh.enq.count .drain = 1 ∧
+      (.drain ∈ f.sh.queue ∨ (.drain ∈ f.sh.deqd ∧ f.sh.rxStopped = true))) := by
+  intro f
+  have hq := every_op_returns_when_its_thread_is_scheduled_often_enough progs sched₁ sched₂ h
+  have hc' : f.sh.word.closed = true := by
+    simp only [f]; rw [run_append]; exact (mono_run _ _).closed hc
+  exact drain_completes progs (sched₁ ++ sched₂) hc' hq
+
+/-- Non-vacuity of the count form: the state of the example above (`mu = 48`), then thread 1 48 times,
+then thread 0 48 times — no receiver step at all: the hypothesis holds, every op has returned. -/
+example :
+    let g := run (init [[.send [] false], [.drain]]) [.t 0, .t 0, .t 0, .t 0, .t 0, .t 0, .t 0, .t 1, .t 1]
+    let sched₂ := List.replicate 48 (Tid.t 1) ++ List.replicate 48 (Tid.t 0)
+    (∀ i, en g (.t i) = true → mu g ≤ sched₂.count (.t i)) ∧ quiescent (run g sched₂) = true ∧
+      (run g sched₂).sh.queue = [.msg 0, .drain] := by
+  refine ⟨fun i hi => ?_, by decide +kernel, by decide +kernel⟩
+  have hlt : i < 2 := by
+    apply Classical.byContradiction
+    intro hge
+    simp only [en] at hi
+    have hnone : (run (init [[Op.send [] false], [Op.drain]])
+      [.t 0, .t 0, .t 0, .t 0, .t 0, .t 0, .t 0, .t 1, .t 1]).threads[i]? = none := by
+      apply List.getElem?_eq_none
+      rw [length_run]; simp [init]; omega
+    rw [hnone] at hi; cases hi
+  have : i = 0 ∨ i = 1 := by omega
+  rcases this with rfl | rfl <;> decide +kernel
+
+/-- **The bound at the start in closed form.** `mu (init progs) = (T+1)·(W+2)` with `T` threads and
+`W` = 15 per send (nested sends counted), 8 per drain, 2 per wrong-type send: every case of `T` thread
+programs has returned all its calls and reached `endState` after that many fair rounds, and performs
+at most that many effective steps (failed CAS attempts included) under any schedule at all. -/
+theorem every_case_finishes_within_the_explicit_bound (progs : List (List Op)) (rounds : List (List Tid))
+    (hfair : ∀ r ∈ rounds, fairRound (init progs) r)
+    (hn : (progs.length + 1) * ((progs.map opsW).sum + 2) ≤ rounds.length) :
+    endState (run (init progs) rounds.flatten) = true ∧
+    ∀ sched, effSteps (init progs) sched ≤ (progs.length + 1) * ((progs.map opsW).sum + 2) := by
+  refine ⟨?_, fun sched => ?_⟩
+  · have := fair_schedule_reaches_the_end_state progs [] rounds hfair (by rw [← mu_init] at hn; exact hn)
+    simpa using this
+  · have := effSteps_le (init progs) sched
+    rw [mu_init] at this
+    omega
+
 end C07
 
 #print axioms C07.at_most_one_stop_accepted
@@ -914,3 +1204,16 @@ end C07
 #print axioms C07.model_close_installs_generated
 #print axioms C07.model_marker_load_follows_generated
 #print axioms C07.model_release_follows_generated
+-- round 4, wave 2
+#print axioms C07.rejected_send_hands_back_its_own_message
+#print axioms C07.step_is_progress_or_a_failed_cas
+#print axioms C07.after_its_own_step_a_thread_remembers_the_current_word
+#print axioms C07.the_word_changes_only_by_progress
+#print axioms C07.every_step_that_does_something_decreases_the_measure
+#print axioms C07.fair_schedule_reaches_the_end_state
+#print axioms C07.drain_completes_under_every_fair_schedule
+#print axioms C07.repeated_drain_is_invisible_under_any_interleaving
+#print axioms C07.no_livelock_under_any_schedule
+#print axioms C07.every_op_returns_when_its_thread_is_scheduled_often_enough
+#print axioms C07.marker_is_emitted_when_threads_are_scheduled_often_enough
+#print axioms C07.every_case_finishes_within_the_explicit_bound
